@@ -428,7 +428,7 @@ Proof.
 Qed.
 
 (* dict_norm is the identity on entry lists with distinct keys *)
-Lemma dict_set_fresh acc k v : mem_chars k (map fst acc) = false -> dict_set acc k v = acc ++ [(k, v)].
+Lemma dict_set_fresh {B : Type} (acc : list (chars * B)) k v : mem_chars k (map fst acc) = false -> dict_set acc k v = acc ++ [(k, v)].
 Proof.
   induction acc as [|[k' v'] r IH]; simpl; [reflexivity|]. intro H.
   apply orb_false_iff in H as [H1 H2]. rewrite H1. rewrite IH by assumption. reflexivity.
@@ -445,7 +445,7 @@ Proof.
     rewrite chars_eqb_refl in E. discriminate.
 Qed.
 
-Lemma dict_norm_gen kv : forall acc,
+Lemma dict_norm_gen {B : Type} (kv : list (chars * B)) : forall acc,
   nodup_keys (map fst kv) = true ->
   (forall k, In k (map fst kv) -> mem_chars k (map fst acc) = false) ->
   fold_left (fun a p => dict_set a (fst p) (snd p)) kv acc = acc ++ kv.
@@ -461,7 +461,7 @@ Proof.
     apply chars_eqb_eq in E. subst k'. apply mem_chars_In in Hin. congruence.
 Qed.
 
-Lemma dict_norm_nodup kv : nodup_keys (map fst kv) = true -> dict_norm kv = kv.
+Lemma dict_norm_nodup {B : Type} (kv : list (chars * B)) : nodup_keys (map fst kv) = true -> dict_norm kv = kv.
 Proof. intro H. unfold dict_norm. rewrite dict_norm_gen; auto. Qed.
 
 Lemma stop_comma r : stop numch (","%char :: r) = true. Proof. reflexivity. Qed.
